@@ -28,7 +28,7 @@ func init() {
 func genDeterminismFacts(repo string, emit func(name, leanDef string, err error)) {
 	ix, err := loadIndex(repo)
 	if err != nil {
-		for _, n := range []string{"mapRangeSites", "mapRangeUnresolved", "ambientUses", "ambientTelemetry", "oracleCacheWriters", "oracleUnguardedTxWriters"} {
+		for _, n := range []string{"mapRangeSites", "mapRangeUnresolved", "ambientUses", "ambientTelemetry", "oracleCacheWriters", "oracleUnguardedTxWriters", "oracleGuardedTxWriters"} {
 			emit(n, "", err)
 		}
 		return
@@ -143,12 +143,18 @@ func genDeterminismFacts(repo string, emit func(name, leanDef string, err error)
 
 	// ---- oracle in-memory singletons: who mutates them, and under which CheckTx guard
 	writers, werr := oracleCacheWriters(ix)
-	var txWriters []string
+	var txWriters, txGuarded []string
 	for _, w := range writers {
-		if strings.HasSuffix(w, ":unguarded") && !strings.HasPrefix(w, "x/oracle/module.go:AppModule.EndBlock:") && !strings.HasPrefix(w, "x/oracle/keeper/single.go:") {
+		if strings.HasPrefix(w, "x/oracle/module.go:AppModule.EndBlock:") || strings.HasPrefix(w, "x/oracle/keeper/single.go:") {
+			continue
+		}
+		if strings.HasSuffix(w, ":unguarded") {
 			txWriters = append(txWriters, w)
+		} else {
+			txGuarded = append(txGuarded, w)
 		}
 	}
+	emit("oracleGuardedTxWriters", "/-- handler-side writers of the oracle singletons that sit inside `if !ctx.IsCheckTx()` (checktx-guarded) or act on the aggregator returned by GetAggregatorContext(ctx), which is the CheckTx copy on the check state (mode-dispatched) -/\ndef oracleGuardedTxWriters : List String := "+leanStrListNL(txGuarded), werr)
 	emit("oracleUnguardedTxWriters", "/-- the unguarded writers that are neither the EndBlocker nor the (re)initialisation in single.go, i.e. reachable from a message handler on the check state -/\ndef oracleUnguardedTxWriters : List String := "+leanStrListNL(txWriters), werr)
 	emit("oracleCacheWriters", "/-- x/oracle functions calling a mutating method of the shared in-memory cache (`cs`) or aggregator context (`agc`): file:Func:callee:guard, guard ∈ {checktx-guarded, unguarded} -/\ndef oracleCacheWriters : List String := "+leanStrListNL(writers), werr)
 }
@@ -187,19 +193,31 @@ func oracleCacheWriters(ix *xIndex) ([]string, error) {
 			if !consensusFile(fn.File.Rel) {
 				continue
 			}
-			guarded := false
 			if fn.Decl.Body == nil {
 				continue
 			}
+			// locals bound to the mode-dispatched aggregator: `agc := GetAggregatorContext(ctx, …)` returns
+			// the CheckTx copy when ctx.IsCheckTx()
+			dispatched := map[string]bool{}
 			ast.Inspect(fn.Decl.Body, func(n ast.Node) bool {
-				if c, ok := n.(*ast.CallExpr); ok {
-					if strings.HasSuffix(exprText(c.Fun), ".IsCheckTx") || strings.HasSuffix(exprText(c.Fun), ".IsReCheckTx") {
-						guarded = true
+				if as, ok := n.(*ast.AssignStmt); ok && len(as.Lhs) == 1 && len(as.Rhs) == 1 {
+					if c, ok := as.Rhs[0].(*ast.CallExpr); ok && strings.HasSuffix(exprText(c.Fun), "GetAggregatorContext") && len(c.Args) >= 1 && exprText(c.Args[0]) == "ctx" {
+						if id, ok := as.Lhs[0].(*ast.Ident); ok {
+							dispatched[id.Name] = true
+						}
 					}
 				}
 				return true
 			})
+			// per call: guarded iff it sits in the then-branch of an `if` whose condition contains
+			// `!ctx.IsCheckTx()` (possibly as a conjunct), at any nesting depth
+			var stack []ast.Node
 			ast.Inspect(fn.Decl.Body, func(n ast.Node) bool {
+				if n == nil {
+					stack = stack[:len(stack)-1]
+					return true
+				}
+				stack = append(stack, n)
 				c, ok := n.(*ast.CallExpr)
 				if !ok {
 					return true
@@ -214,8 +232,17 @@ func oracleCacheWriters(ix *xIndex) ([]string, error) {
 				}
 				found = true
 				g := "unguarded"
-				if guarded {
-					g = "checktx-guarded"
+				if dispatched[recv] {
+					g = "mode-dispatched"
+				}
+				for i := len(stack) - 2; i >= 0; i-- {
+					ifs, ok := stack[i].(*ast.IfStmt)
+					if !ok || i+1 >= len(stack) || stack[i+1] != ast.Node(ifs.Body) {
+						continue
+					}
+					if condHasNotCheckTx(ifs.Cond) {
+						g = "checktx-guarded"
+					}
 				}
 				out = append(out, fmt.Sprintf("%s:%s:%s.%s:%s", fn.File.Rel, fn.QName(), recv, sel.Sel.Name, g))
 				return true
@@ -234,4 +261,23 @@ func oracleCacheWriters(ix *xIndex) ([]string, error) {
 		}
 	}
 	return d, nil
+}
+
+// condHasNotCheckTx: the condition is `!ctx.IsCheckTx()` or a conjunction containing it.
+func condHasNotCheckTx(e ast.Expr) bool {
+	switch t := e.(type) {
+	case *ast.ParenExpr:
+		return condHasNotCheckTx(t.X)
+	case *ast.UnaryExpr:
+		if t.Op == token.NOT {
+			if c, ok := t.X.(*ast.CallExpr); ok && strings.HasSuffix(exprText(c.Fun), ".IsCheckTx") {
+				return true
+			}
+		}
+	case *ast.BinaryExpr:
+		if t.Op == token.LAND {
+			return condHasNotCheckTx(t.X) || condHasNotCheckTx(t.Y)
+		}
+	}
+	return false
 }
